@@ -214,6 +214,8 @@ def abs_comprehension(C, e, g, it, st, fr, as_list):
         mem2 = lambda v, _y=y: z3.Exists([_y], z3.And(mem(_y), fn(_y) == v))       # noqa
         R = SAbs(ek2, mem2, n, distinct=False, name='map')
         R.src, R.fn = src, fn
+        if src.elem is not None:
+            R.elem = lambda i, _f=fn, _s=src: _f(_s.elem(i))      # the i-th element of the mapped sequence
         w = z3.Const(fresh_name('wit'), elem_sort(C, L.ek))
         st.assume(z3.Implies(n >= 1, mem(w)))
         for f in L.facts:
